@@ -62,7 +62,6 @@ class DigitEvaluator(Evaluator):
         Evaluator.__init__(self, *a, **kw)
         self.formats = []          # (function name, spec, node) of every numeric format specification met
         self.string_problems = []  # (kind, node, message): malformed digit strings reaching float()/int()
-        self.raise_conds = []      # (function name, condition, node) of every `if cond: raise`
         self.magnitude = None      # (symbol Rat, Fraction): comparisons of abs(symbol) with a constant are decided for this magnitude
         self.thresholds = set()    # constants abs(symbol) was compared with
 
@@ -81,14 +80,6 @@ class DigitEvaluator(Evaluator):
                     l, r = (mag, c) if not flip else (c, mag)
                     return Bool({'lt': l < r, 'le': l <= r, 'gt': l > r, 'ge': l >= r, 'eq': l == r, 'ne': l != r}[name])
         return Evaluator.compare(self, op, a, b, node)
-
-    def exec_if(self, st, env, func):
-        if any(isinstance(b, ast.Raise) for b in st.body):
-            n_f = len(self.formats)
-            cond = self.truth(self.eval(st.test, env, func), st)
-            del self.formats[n_f:]
-            self.raise_conds.append((self._stack[-1].qualname if self._stack else '?', cond, st))
-        return Evaluator.exec_if(self, st, env, func)
 
     # ---- formatting
     def format_value(self, v, spec, node):
